@@ -172,6 +172,12 @@ Theorem C17_morgan_atom_neighbour_order : forall (h : list Z -> Z) g g2 d d2 idx
 Proof. exact morgan_atom_neighbour_order. Qed.
 Print Assumptions C17_morgan_atom_neighbour_order.
 
+(* ---- the evaluation of the tuple hash used by the correspondence check (bit masks instead of `mod 2^64`) is the
+        hash model Model.PyHash.hash_ztuple ---- *)
+Theorem C17_hash_ztuple_fast_eq : forall l, hash_ztuple_fast l = hash_ztuple l.
+Proof. exact hash_ztuple_fast_eq. Qed.
+Print Assumptions C17_hash_ztuple_fast_eq.
+
 (* ---- non-vacuity: the hypotheses hold on a concrete molecule and the model returns chython's values ---- *)
 Theorem C17_example_nonvacuous :
   wf_mol ex_mol = true /\
